@@ -10,11 +10,16 @@ LEVEL = "model_checking"
 def single_vs_joint(rep, tier):
     """(e) joint labelling of ONE series gives the same result as the single-series front end."""
     rng = random.Random(common.seed() * 7 + 77)
-    n = 4 if tier == "quick" else 24
+    n = 8 if tier == "quick" else 32
     cfgs = []
+    sweepW = [1, 2, 3, 4, 5, 6, 8, 12]
     for i in range(n):
         c = runs.gen_config(rng, 100 + i, tier)
-        c["lens"] = [c["lens"][0]]
+        c["W"] = sweepW[i % len(sweepW)]                 # every residue of W mod 4, odd and even
+        if c["W"] >= 8:
+            c["N"] = min(c["N"], 2)
+        c["lens"] = [max(c["lens"][0], 3 * c["W"] + 3 * c["K"] + c["N"] * c["W"] + 2)]
+        c["limit"] = min(c["limit"], 3)
         c["beta_form"] = "float"
         c["eps"] = 0
         a = dict(c, fe="single", id=f"s{i}")
